@@ -834,4 +834,78 @@ theorem writeCollectionSize (p : BitVec 8) (n : Int) (hn : -(2:Int)^63 ≤ n ∧
       simp only [Int.shiftRight_zero] at this
       rw [this]
 
+/-! ### `decVints`: three `decVint` calls threaded through the returned position -/
+
+theorem decVint_next (data : List UInt8) (s : Nat) (hd : data.length < 2^60) (hs : s ≤ data.length) :
+    (Gen.Marshal.decVint (data.map (·.toBitVec)) (BitVec.ofNat 64 s)).2.2 = false →
+      (Gen.Marshal.decVint (data.map (·.toBitVec)) (BitVec.ofNat 64 s)).2.1.toNat ≤ data.length := by
+  unfold Gen.Marshal.decVint
+  rw [List.length_map, sle_nat _ _ (by omega) (by omega)]
+  by_cases h1 : data.length ≤ s
+  · simp [h1]
+  · have hlt : s < data.length := by omega
+    have hsn : (BitVec.ofNat 64 s).toNat = s := by simp only [BitVec.toNat_ofNat]; omega
+    have hget : (data.map (·.toBitVec)).getD (BitVec.ofNat 64 s).toNat 0#8 = (data[s]).toBitVec := by
+      rw [hsn, List.getD_eq_getElem?_getD, List.getElem?_map, List.getElem?_eq_getElem hlt]; rfl
+    simp only [h1, decide_false, Bool.false_eq_true, if_false, hget, small_iff, UInt8.toNat_toBitVec]
+    generalize data[s] = first
+    by_cases hsm : first.toNat < 128
+    · have hn : (BitVec.ofNat 64 s + 0x1#64).toNat = s + 1 := by simp; omega
+      simp only [hsm, decide_true, if_true, hn]
+      intro _; omega
+    · simp only [hsm, decide_false, Bool.false_eq_true, if_false, numBytes_val]
+      have hnb : Marshal.leadOnes first ≤ 8 := by unfold Marshal.leadOnes; omega
+      generalize Marshal.leadOnes first = nb at hnb
+      have hadd : BitVec.ofNat 64 s + BitVec.ofNat 64 nb + 0x1#64 = BitVec.ofNat 64 (s + nb + 1) := by
+        apply BitVec.eq_of_toNat_eq; simp
+      rw [hadd, slt_small_dec _ _ (by omega) (by omega)]
+      by_cases hshort : data.length < s + nb + 1
+      · simp [hshort]
+      · have hn : (BitVec.ofNat 64 (s + nb + 1)).toNat = s + nb + 1 := by simp only [BitVec.toNat_ofNat]; omega
+        simp only [hshort, decide_false, Bool.false_eq_true, if_false, hn]
+        intro _; omega
+
+
+theorem toInt_trunc32 (v : BitVec 64) : (v.setWidth 32).toInt = toS 32 v.toInt := by
+  rw [toS_of_toNat (by decide)]
+  unfold toS
+  rw [BitVec.toNat_setWidth, BitVec.toInt_eq_toNat_cond]
+  have := v.isLt
+  simp only [Nat.reducePow, Nat.reduceSub, Int.reducePow]
+  split <;> omega
+
+theorem trunc32' (v : BitVec 64) : ((v.toNat : Nat) : Int).bmod 4294967296 = toS 32 v.toInt := by
+  have := toInt_trunc32 v
+  simpa using this
+
+/-- one call of the generated `decVint` at a position inside the data, in destructured form -/
+theorem decVint_step (data : List UInt8) (s : BitVec 64) (hd : data.length < 2^60) (hs : s.toNat ≤ data.length)
+    (v p : BitVec 64) (e : Bool) (hg : Gen.Marshal.decVint (data.map (·.toBitVec)) s = (v, p, e)) :
+    (e = true ∧ Marshal.decVint (data.drop s.toNat) = none) ∨
+    (e = false ∧ p.toNat ≤ data.length ∧ Marshal.decVint (data.drop s.toNat) = some (v.toInt, data.drop p.toNat)) := by
+  have t := decVint data s.toNat hd hs
+  have n := decVint_next data s.toNat hd hs
+  rw [BitVec.ofNat_toNat, BitVec.setWidth_eq, hg] at t n
+  cases e
+  · right; exact ⟨rfl, n rfl, by simpa using t.symm⟩
+  · left; exact ⟨rfl, by simpa using t.symm⟩
+
+/-- `decVints`: months, days (truncated to int32), nanoseconds, or an error -/
+theorem decVints (data : List UInt8) (hd : data.length < 2^60) :
+    (match Gen.Marshal.decVints (data.map (·.toBitVec)) with
+     | (m, d, n, err) => if err then none else some (m.toInt, d.toInt, n.toInt)) = Marshal.decVints data := by
+  unfold Gen.Marshal.decVints Marshal.decVints
+  rcases h1 : Gen.Marshal.decVint (data.map (·.toBitVec)) 0x0#64 with ⟨v1, p1, e1⟩
+  rcases decVint_step data 0x0#64 hd (by simp) v1 p1 e1 h1 with ⟨rfl, m1⟩ | ⟨rfl, b1, m1⟩
+  · simp at m1; simp [m1, h1]
+  · simp at m1
+    rcases h2 : Gen.Marshal.decVint (data.map (·.toBitVec)) p1 with ⟨v2, p2, e2⟩
+    rcases decVint_step data p1 hd b1 v2 p2 e2 h2 with ⟨rfl, m2⟩ | ⟨rfl, b2, m2⟩
+    · simp [m1, m2, h1, h2]
+    · rcases h3 : Gen.Marshal.decVint (data.map (·.toBitVec)) p2 with ⟨v3, p3, e3⟩
+      rcases decVint_step data p2 hd b2 v3 p3 e3 h3 with ⟨rfl, m3⟩ | ⟨rfl, b3, m3⟩
+      · simp [m1, m2, m3, h1, h2, h3]
+      · simp [m1, m2, m3, h1, h2, h3]
+        exact ⟨trunc32' v1, trunc32' v2⟩
+
 end GenTie.C12
